@@ -11,7 +11,7 @@
                 backward_shift_keeps_chains, evict_exactly_min_others,
                 cas_only_on_identity, compare_delete_only_on_identity,
                 insert_never_evicts_own_key, capacity_respected_sequentially,
-                overshoot_heals_sequentially, spill_loop_tie,
+                overshoot_heals_sequentially, spill_loop_tie, translated_code_is_model,
                 segment_len_is_reachable, clear_resets, count_eq_entries_at_quiescence,
                 no_nested_locks, gen_grow_len_pow2_tie
                 occupancy_bound (every schedule: entries <= capacity + calls in
@@ -24,8 +24,8 @@
                 swc-sparse-scan-race)
      (count_eq_entries_at_quiescence now covers Clear: the defect clear-count-race
       was fixed in /repo by aae41ee and the model follows the repaired code) *)
-From Sdns Require Import Common.Base Gen.C16 C16.Model C16.Conc.
-From Sdns Require Import C16.Proofs_cyc C16.Proofs_tab C16.Proofs_wf C16.Proofs_more C16.Proofs_seg C16.Proofs_hist C16.Proofs_conc C16.Proofs_evict C16.Proofs_cap.
+From Sdns Require Import Common.Base Common.GoList Gen.C16 C16.Model C16.Conc.
+From Sdns Require Import C16.Proofs_cyc C16.Proofs_tab C16.Proofs_wf C16.Proofs_more C16.Proofs_seg C16.Proofs_hist C16.Proofs_conc C16.Proofs_evict C16.Proofs_cap C16.Proofs_gen.
 Open Scope nat_scope.
 
 (* 1. The table invariant (power-of-two length >= 8, no key twice, every probe
@@ -298,6 +298,43 @@ Print Assumptions no_nested_locks.
 Theorem gen_grow_len_pow2_tie : forall p, p < 62 -> go_grow_len (2 ^ N.of_nat p) = N.of_nat (grow_len (2 ^ p)).
 Proof. exact gen_grow_len_pow2. Qed.
 Print Assumptions gen_grow_len_pow2_tie.
+
+(* 15. The Go functions themselves, as srcgen translates them on every run
+       (Gen.C16: primaryIndex, getSegmentIndex, the loop of backwardShiftDelete, the
+       probe loop of Get), compute what the model's hidx / go_sidx / bshift / scan
+       compute, on every slot array of power-of-two length (fuel >= len for the
+       loops).  Editing those functions in /repo re-checks these. *)
+Theorem translated_code_is_model : forall p, p <= 62 ->
+  (forall m k, T_UInt64Map_mask m = (Z.of_nat (2 ^ p) - 1)%Z ->
+     go_UInt64Map_primaryIndex m k = Z.of_nat (hidx go_mix (2 ^ p) k)) /\
+  (forall m k, T_SegmentUInt64Map_segmentMask m = (Z.of_nat (2 ^ p) - 1)%Z ->
+     go_SegmentUInt64Map_getSegmentIndex m k = N.of_nat (go_sidx (2 ^ p) k)) /\
+  (forall fuel d i sz ga hz zv, length d = 2 ^ p -> i < 2 ^ p ->
+     let r := go_UInt64Map_backwardShiftDelete_loop1_run fuel (gomap d sz ga hz zv) 0%N (Z.of_nat i) in
+     match bshift go_mix fuel d (2 ^ p) i i with
+     | Some d' => fst r = GoNext /\ exists i' j', snd r = (gomap d' sz ga hz zv, 0%N, Z.of_nat i', Z.of_nat j')
+     | None => fst r = GoOof
+     end) /\
+  (forall fuel d k idx sz ga hz zv, length d = 2 ^ p -> idx < 2 ^ p -> k <> 0%N -> 2 ^ p <= fuel ->
+     let r := go_UInt64Map_Get_loop1_run fuel (gomap d sz ga hz zv) k (Z.of_nat idx) in
+     match scan (stop_key k) (2 ^ p - 1) d (2 ^ p) (nxt (2 ^ p) idx) with
+     | Some x => fst r = GoRet (if N.eqb (skey d x) k then (snd (sl d x), true) else (0%N, false))
+     | None => fst r = GoNext
+     end).
+Proof.
+  intros p Hp. split; [|split; [|split]].
+  - intros m k H. apply gen_primaryIndex; auto.
+  - intros m k H. apply gen_getSegmentIndex; auto.
+  - intros. apply gen_bshift_run; auto.
+  - intros. apply gen_get_run; auto.
+Qed.
+Print Assumptions translated_code_is_model.
+
+(* the translated shift on a concrete cluster: keys 3 homes ... moves what the model moves *)
+Example ex_translated_shift :
+  let d := t_data (tput go_mix (tput go_mix (tput go_mix (new_table 0) 5 1) 13 2) 21 3) in
+  length d = 2 ^ 3 /\ bshift go_mix 8 d 8 0 0 <> None.
+Proof. vm_compute. split; [reflexivity|discriminate]. Qed.
 
 (* The hypotheses are satisfiable by non-trivial states of the code's own hash. *)
 Example ex_wf : WF go_mix (tput go_mix (tput go_mix (new_table 0) 5 1) 13 2).
